@@ -171,6 +171,9 @@ Step ==
                         /\ DIRTY' = IF Def(e.x).cls = "bad" THEN DIRTY \cup {<<e.n, e.p>>} ELSE DIRTY
                         /\ Report(l, NameIf(Has(XD, e.x), "x:UnknownPayload"), [ev |-> e])
                         /\ Unch(<<OF, FQ, GX>>)
+                   [] e.m = "raw" ->       \* bytes that are no protocol message: the connection is not an honest one any more
+                        /\ DIRTY' = DIRTY \cup {<<e.n, e.p>>}
+                        /\ Unch(<<SN, OF, FQ, GX>>)
                    [] e.m = "tx" ->
                         /\ OF' = OF \cup {[n |-> e.n, t |-> e.t, ok |-> e.ok, e |-> ep, l |-> l]}
                         /\ Unch(<<SN, DIRTY, FQ, GX>>)
